@@ -117,6 +117,27 @@ mut("c09-branch-annotation-misses-nibble-f", ["C09"], "trie/utils/nodes.py",
     "Nibbles((nibble,)) for nibble in range(15) if bool(node_body[nibble])",
     suite=None, note="sub_segments of a branch omit child f")
 
+mut("c17-buffer-not-cleared", ["C17"], "trie/utils/db.py",
+    "        finally:\n            self.cache = {}",
+    "        finally:\n            pass",
+    suite=True, note="the buffer survives the batch and is committed by the next one")
+mut("c17-contains-no-read-through", ["C17"], "trie/utils/db.py",
+    "        if key in self.cache and self.cache[key] is not DELETED:\n            return True\n        else:\n            return key in self.wrapped_db",
+    "        if key in self.cache:\n            return self.cache[key] is not DELETED\n        else:\n            return key in self.wrapped_db",
+    suite=True, note="`in` does not read through after a buffered delete")
+mut("c17-getitem-no-read-through", ["C17"], "trie/utils/db.py",
+    "            if val is not DELETED:\n                return val\n            else:\n                return self.wrapped_db[key]",
+    "            if val is not DELETED:\n                return val\n            else:\n                raise KeyError(key)",
+    suite=False, note="reads do not read through after a buffered delete")
+mut("c17-deletes-always-applied", ["C17", "C04"], "trie/utils/db.py",
+    "                elif do_deletes:\n",
+    "                else:\n",
+    suite=False, note="buffered deletes are applied even when not requested")
+mut("c17-first-write-wins", ["C17"], "trie/utils/db.py",
+    "    def __setitem__(self, key, value):\n        self.cache[key] = value",
+    "    def __setitem__(self, key, value):\n        if self.cache.get(key, DELETED) is DELETED:\n            self.cache[key] = value",
+    suite=None, note="a second buffered write to the same key is ignored")
+
 quiet("q-no-shortcircuit-delete-branch", ["C01", "C02", "C06"], HX,
       "        if encoded_sub_node == node[trie_key[0]]:\n            # If no change, (value already empty), short-circuit and skip any other work\n            return node\n\n        node[trie_key[0]] = encoded_sub_node",
       "        node[trie_key[0]] = encoded_sub_node",
